@@ -42,13 +42,20 @@ def scenarios(rng, tier):
                 n = 3
             style = rng.choice(["plain", "wild", "long"])
             if style == "long":
-                names = ["".join(rng.choice("abcXYZ019_.|-") for _ in range(rng.choice([1, 17, 60, 128, 200]))) + "q%d" % i for i in range(n)]
+                names = ["".join(rng.choice("abcXYZ019_.|-") for _ in range(rng.choice([1, 17, 60, 128, 200, 253, 254, 255, 300]))) + "q%d" % i for i in range(n)]
                 names = [("n" + x) if x[0] in "-.|" else x for x in names]
             else:
                 names = gen.names(rng, n, style)
             if rng.random() < 0.4:
                 rows = ["".join(c.lower() if rng.random() < 0.3 else c for c in r) for r in rows]
             S.append(dict(id="syn_%s_W%d" % (kind, W), mode="synthetic", names=names, rows=rows))
+    # names at and beyond what the block writers keep (MSA_NAME_LEN = 256): header and rows must still agree
+    for L in ([254, 255, 256, 300] if tier == "quick" else [250, 253, 254, 255, 256, 257, 300, 1000]):
+        for kind in ("prot", "nuc"):
+            alpha = "DEFHIKLMPQRSVWYACGT" if kind == "prot" else "ACGT"
+            rows = aligned_rows(rng, 3, 70, alpha)
+            names = ["".join(rng.choice("abcXYZ019_") for _ in range(L - 2)) + "q%d" % i for i in range(3)]
+            S.append(dict(id="syn_%s_name%d" % (kind, L), mode="synthetic", names=names, rows=rows))
     # alignments produced by runs
     for i in range(10 if tier == "quick" else 150):
         sc = gen.alignment_scenario(rng, nmax=10, lmax=150)
